@@ -1,4 +1,5 @@
 ------------------------------- MODULE SpaceC14 -------------------------------
+(* (no '?' / '#' in a segment: the engine cuts a request URL there - query and fragment never reach it as path) *)
 (* C14 - the bounded input space: configured URL patterns whose segments contain characters *)
 (* special to regular expressions, parameter names inside and outside [a-zA-Z0-9-_], hosts   *)
 (* with dots, optional trailing wildcard; method lists; and, per pattern, the request URLs   *)
@@ -12,18 +13,19 @@ C(s) == s   \* readability: a segment is written as a tuple of characters
 HostsC == { << <<"a">>, <<"c", "o", "m">> >>, << <<"a", "p", "i">>, <<"a">>, <<"c", "o", "m">> >> }
 OtherHost == << <<"a", "x", "c", "o", "m">> >>          \* "axcom": what an unescaped "a.com" would also match
 
-LitSegs   == { <<"a">>, <<"a", ".", "b">>, <<"a", "+", "b">>, <<"a", "(", "b">>, <<"a", "?", "b">>, <<"v", "1">> }
+LitSegs   == { <<"a">>, <<"a", ".", "b">>, <<"a", "+", "b">>, <<"a", "(", "b">>, <<"a", "*", "b">>, <<"v", "1">> }
 ParamSegsC == { <<"{", "i", "d", "}">>, <<"{", "i", "d", "_", "2", "}">>, <<"{", "i", ".", "d", "}">> }
 WildC     == <<"*">>
 
 \* near misses of a literal segment: what the segment read as a regular expression would match
 Near(seg) == IF seg = <<"a", ".", "b">> THEN { <<"a", "x", "b">> }
              ELSE IF seg = <<"a", "+", "b">> THEN { <<"a", "a", "b">>, <<"a", "b">> }
-             ELSE IF seg = <<"a", "?", "b">> THEN { <<"a", "b">>, <<"b">> }
+             ELSE IF seg = <<"a", "*", "b">> THEN { <<"a", "b">>, <<"b">> }
              ELSE IF seg = <<"a">> THEN { <<"a", "a">> }
              ELSE {}
 \* candidates for the request segment at a pattern position
-Cands(seg) == IF IsParamC(seg) THEN { <<"7">>, <<"a", ".", "b">> } ELSE {seg} \cup Near(seg)
+\* (the empty segment <<>> for a parameter: "a.com//x" - a degenerate spelling the tree takes as a segment)
+Cands(seg) == IF IsParamC(seg) THEN { <<"7">>, <<"a", ".", "b">>, <<>> } ELSE {seg} \cup Near(seg)
 
 BodiesC   == SeqsUpTo(LitSegs \cup ParamSegsC, MaxBody)
 PatternsC == {[h |-> h, p |-> b] : h \in HostsC, b \in BodiesC}
@@ -37,7 +39,12 @@ HEADc == <<"H", "E", "A", "D">>
 ItemsC == {[kind |-> "policy", ms |-> {GETc}, pc |-> pc, split |-> FALSE] : pc \in PatternsC}
           \cup {[kind |-> "flow", ms |-> ms, pc |-> pc, split |-> FALSE] : pc \in PatternsC, ms \in {{}, {GETc}, {GETc, POSTc}}}
           \cup {[kind |-> "flow", ms |-> {GETc, POSTc}, pc |-> pc, split |-> TRUE] : pc \in PatternsC}
-ItemSeq == SetToSeq(ItemsC)
+\* a flow for every URL (filter url "*"), without and WITH a method list: the engine runs it for every URL (with
+\* those methods), the proxy must be told to manage everything - an expression for "*" finds no real URL
+CatchAllC == [h |-> << <<"*">> >>, p |-> <<>>]
+IsCatchAll(pc) == pc = CatchAllC
+ItemsAll == ItemsC \cup {[kind |-> "flow", ms |-> ms, pc |-> CatchAllC, split |-> FALSE] : ms \in {{}, {GETc}}}
+ItemSeq == SetToSeq(ItemsAll)
 NItems  == Len(ItemSeq)
 
 \* all ways to fill the body positions with candidates
@@ -52,10 +59,17 @@ ReqUrls(pc) ==
         tails == IF wild THEN {<<>>, << <<"a">> >>, << <<"a">>, <<"7">> >>} ELSE {<<>>, << <<"a">> >>}
         paths == {f \o t : f \in full, t \in tails}
                  \cup {SubSeq(f, 1, Len(f) - 1) : f \in {g \in full : Len(g) > 0}}
-    IN {[h |-> h, p |-> p] : h \in {pc.h, OtherHost[1]}, p \in paths}
+        \* no empty LAST segment: that is the trailing-slash spelling of the shorter URL (var "ts")
+        ok(p) == Len(p) = 0 \/ p[Len(p)] # <<>>
+    IN {[h |-> h, p |-> p] : h \in {pc.h, OtherHost[1]}, p \in {q \in paths : ok(q)}}
 
 \* OtherHost is a single-label host
-ReqsOf(pc) == {[mc |-> mc, uc |-> [h |-> (IF u.h = OtherHost[1] THEN OtherHost ELSE u.h), p |-> u.p], var |-> v] :
+CatchAllUrls == { [h |-> << <<"a">>, <<"c", "o", "m">> >>, p |-> <<>>],
+                  [h |-> << <<"a">>, <<"c", "o", "m">> >>, p |-> << <<"a">> >>],
+                  [h |-> OtherHost, p |-> << <<"a">>, <<"7">> >>] }
+ReqsOf(pc) == IF IsCatchAll(pc)
+              THEN {[mc |-> mc, uc |-> u, var |-> v] : mc \in {GETc, POSTc, HEADc}, u \in CatchAllUrls, v \in {"", "ts", "uc"}}
+              ELSE {[mc |-> mc, uc |-> [h |-> (IF u.h = OtherHost[1] THEN OtherHost ELSE u.h), p |-> u.p], var |-> v] :
                    mc \in {GETc, POSTc, HEADc}, u \in ReqUrls(pc), v \in {"", "ts", "uc"}}
 
 \* the item / request in the vocabulary of ManagedP
